@@ -1,15 +1,15 @@
 # fills the round-2 table of DESIGN.md §9.1 from seeded/*-r2-*/meta.json and notes.md
 import json,glob,re
 rows=[];n=0;c=0
-for p in sorted(glob.glob('/verif/seeded/*-r[234]-m*/meta.json')):
+for p in sorted(glob.glob('/verif/seeded/*-r[2345]-m*/meta.json')):
     m=json.load(open(p)); d=p.rsplit('/',1)[0]
     try:
         first=[l for l in open(d+'/notes.md').read().split('\n') if l.strip()][0]
     except Exception: first=''
-    first=re.sub(r'^#+\s*','',first); first=re.sub(r'^(C\d\d(-r2)?\s*/\s*)?(extra_)?m\d\s*(\([^)]*\))?\s*[-:–—]+\s*','',first).replace('|','\\|')[:150]
+    first=re.sub(r'^#+\s*','',first); first=re.sub(r'^(C\d\d(-r\d)?\s*/\s*)?(extra_)?m\d\s*(\([^)]*\))?\s*[-:–—]+\s*','',first).replace('|','\\|')[:150]
     by=m.get('detected_by','?'); note=m.get('detection_note','')
     added=''
-    mm=re.search(r'(needed .*|.* added for this change.*|.*were added.*)',note)
+    mm=re.search(r'(needed .*|.* added for this change.*|.*were added.*|.*was added.*)',note)
     if mm: added=mm.group(1).replace('|','\\|')[:200]
     n+=1
     if by and not by.startswith('filled') and by not in ('none','-'): c+=1
